@@ -139,16 +139,9 @@ def bdiagram(dom, cod, boxes, offs, as_box=False):
     instance itself when the diagram is that single box (same value by ==)."""
     bs = [bbox(b) for b in boxes]
     d = biclosed.Diagram(bty(dom), bty(cod), bs, list(offs))
-    if as_box and len(bs) == 1 and offs == [0] and bs[0] == d and not out_of_contract(boxes[0]):
+    if as_box and len(bs) == 1 and offs == [0] and bs[0] == d:
         return bs[0]
     return d
-
-
-def out_of_contract(b):
-    """a right Curry box with n_wires outside 0..len(diagram.dom): its image has a
-    wrong domain, which only the diagram path (composition with identities)
-    notices; the model always takes the diagram path"""
-    return b[0] == XCURRY and not b[6] and not 0 <= b[5] <= len(b[1])
 
 
 def canon_bbox(b):
